@@ -1,0 +1,45 @@
+//! Verification hooks (cargo feature `verif-hooks`, off by default).
+//!
+//! Nothing in here changes behaviour: `crash_point` calls a thread-local
+//! callback (no-op when unset) so a harness can copy the state directory at
+//! each step of a multi-step file update, and `rotation_threshold` lets a
+//! harness reach WAL rotation in short histories.
+
+use std::cell::{Cell, RefCell};
+
+type CrashHook = Box<dyn FnMut(&'static str)>;
+
+thread_local! {
+    static CRASH_HOOK: RefCell<Option<CrashHook>> = const { RefCell::new(None) };
+    static ROTATION_THRESHOLD: Cell<Option<usize>> = const { Cell::new(None) };
+}
+
+/// Install (or clear) the crash-point callback of the current thread.
+pub fn set_crash_hook(hook: Option<CrashHook>) {
+    CRASH_HOOK.with(|h| *h.borrow_mut() = hook);
+}
+
+/// Called by instrumented code between the steps of a file update.
+pub fn crash_point(tag: &'static str) {
+    CRASH_HOOK.with(|h| {
+        // take the hook out while it runs so a nested crash point cannot re-enter it
+        let taken = h.borrow_mut().take();
+        if let Some(mut f) = taken {
+            f(tag);
+            let mut slot = h.borrow_mut();
+            if slot.is_none() {
+                *slot = Some(f);
+            }
+        }
+    });
+}
+
+/// Override the number of WAL entries after which the log rotates (current thread).
+pub fn set_rotation_threshold(entries: Option<usize>) {
+    ROTATION_THRESHOLD.with(|t| t.set(entries));
+}
+
+/// The override installed by `set_rotation_threshold`, if any.
+pub fn rotation_threshold() -> Option<usize> {
+    ROTATION_THRESHOLD.with(|t| t.get())
+}
